@@ -22,6 +22,9 @@ Section TyInd.
   Hypothesis HUnion : forall ts, Forall P ts -> P (TUnion ts).
   Hypothesis HClass : forall c, P (TClass c).
   Hypothesis HNamed : forall asd names ts ds, Forall P ts -> P (TNamed asd names ts ds).
+  Hypothesis HLeaf : forall tp fmt pat, P (TLeaf tp fmt pat).
+  Hypothesis HEnum : forall lit vals, P (TEnum lit vals).
+  Hypothesis HTyped : forall names ts req, Forall P ts -> P (TTyped names ts req).
   Fixpoint ty_ind' (t: ty) : P t :=
     match t with
     | TInt => HInt | TFloat => HFloat | TBool => HBool | TStr => HStr | TNone => HNone | TAny => HAny
@@ -35,6 +38,10 @@ Section TyInd.
                                  match l with [] => Forall_nil _ | x :: r => Forall_cons _ (ty_ind' x) (go r) end) ts)
     | TClass c => HClass c
     | TNamed asd names ts ds => HNamed asd names ts ds ((fix go (l: list ty) : Forall P l :=
+                                 match l with [] => Forall_nil _ | x :: r => Forall_cons _ (ty_ind' x) (go r) end) ts)
+    | TLeaf tp fmt pat => HLeaf tp fmt pat
+    | TEnum lit vals => HEnum lit vals
+    | TTyped names ts req => HTyped names ts req ((fix go (l: list ty) : Forall P l :=
                                  match l with [] => Forall_nil _ | x :: r => Forall_cons _ (ty_ind' x) (go r) end) ts)
     end.
 End TyInd.
@@ -90,6 +97,21 @@ Section Unfold.
          | SFuel => SFuel | SErr => SErr end
     else SErr.
   Proof. destruct fuel; reflexivity. Qed.
+  Lemma sf_leaf fuel tp fmt pat st :
+    SF fuel (TLeaf tp fmt pat) st =
+    if is_type_name tp && match fmt with Some f => str_mem f formats | None => true end
+    then SOk (leaf_sk tp fmt pat, st) else SErr.
+  Proof. destruct fuel; reflexivity. Qed.
+  Lemma sf_enum fuel lit vals st : SF fuel (TEnum lit vals) st = SOk (enum_sk lit vals, st).
+  Proof. destruct fuel; reflexivity. Qed.
+  Lemma sf_typed fuel names ts req st :
+    SF fuel (TTyped names ts req) st =
+    if str_nodup names && Nat.eqb (List.length names) (List.length ts)
+    then match map_st (SF fuel) ts [] st with
+         | SOk (ss, st1) => SOk (obj_sk None (combine names ss) (isort (req_keys names req)), st1)
+         | SFuel => SFuel | SErr => SErr end
+    else SErr.
+  Proof. destruct fuel; reflexivity. Qed.
   Lemma sf_class0 c st : SF 0 (TClass c) st = SFuel.
   Proof. reflexivity. Qed.
   Lemma sf_classS fuel c st :
@@ -99,7 +121,7 @@ Section Unfold.
     | Some fs =>
         match fields_fold (SF fuel) fs [] [] st with
         | SOk ((props, req), st1) =>
-            let obj := obj_sk c props req in
+            let obj := obj_sk (Some c) props req in
             if cfg.(c_all_refs)
             then SOk (ref_sk (cfg.(c_prefix) ++ "/" ++ c), aset st1 c (render obj))
             else SOk (obj, st1)
@@ -157,6 +179,37 @@ Proof.
   - exact (IH H2).
 Qed.
 
+Lemma req_keys_in names req x : In x (req_keys names req) -> In x names.
+Proof.
+  revert req. induction names as [|n ns IH]; intros [|[] rs] H; simpl in *; try contradiction.
+  - destruct H as [H|H]; [left; exact H|right; eapply IH; eauto].
+  - right; eapply IH; eauto.
+Qed.
+Lemma req_keys_nodup names req : NoDup names -> NoDup (req_keys names req).
+Proof.
+  intros H. revert req. induction H as [|n ns Hn Hns IH]; intros [|[] rs]; simpl; try constructor; auto.
+  intros Hin. apply Hn. eapply req_keys_in; eauto.
+Qed.
+Lemma insert_in x y l : In y (insert_str x l) <-> y = x \/ In y l.
+Proof.
+  induction l as [|z r IH]; simpl; [intuition|].
+  destruct (String.leb x z); simpl; [intuition|]. rewrite IH. intuition.
+Qed.
+Lemma insert_nodup x l : ~ In x l -> NoDup l -> NoDup (insert_str x l).
+Proof.
+  induction l as [|z r IH]; simpl; intros Hx Hn; [constructor; [tauto|constructor]|].
+  destruct (String.leb x z); [constructor; [simpl; tauto|exact Hn]|].
+  inversion Hn; subst. constructor.
+  - rewrite insert_in. intros [->|H]; tauto.
+  - apply IH; tauto.
+Qed.
+Lemma isort_in y l : In y (isort l) <-> In y l.
+Proof. induction l as [|x r IH]; simpl; [tauto|]. rewrite insert_in, IH. intuition. Qed.
+Lemma isort_nodup l : NoDup l -> NoDup (isort l).
+Proof.
+  induction 1 as [|x r Hx Hr IH]; simpl; [constructor|]. apply insert_nodup; [rewrite isort_in; exact Hx|exact IH].
+Qed.
+
 (* ------------------------------------------------------------------ *)
 (* a generic invariant: any document predicate G (relative to the keys of the definitions
    collected so far) that is closed under the constructors of the model holds for every
@@ -183,6 +236,10 @@ Section Generic.
   Hypothesis G_ref : forall ks c, In c ks -> Sp ks (ref_sk (cfg.(c_prefix) ++ "/" ++ c)).
   Hypothesis G_obj : forall ks c props req,
       (forall k d, In (k, d) props -> G ks d) -> NoDup req -> Sp ks (obj_sk c props req).
+  Hypothesis G_leaf : forall ks tp fmt pat,
+      is_type_name tp = true -> match fmt with Some f => str_mem f formats | None => true end = true -> Sp ks (leaf_sk tp fmt pat).
+  Hypothesis G_enum : forall ks lit vals, Sp ks (enum_sk lit vals).
+  Hypothesis G_descr : forall ks s d, Sp ks s -> Sp ks (set_description s d).
   Hypothesis G_ntobj : forall ks props req,
       (forall k d, In (k, d) props -> G ks d) -> NoDup req -> Sp ks (ntobj_sk props req).
   Hypothesis G_default : forall ks s d, Sp ks s -> Sp ks (set_default s d).
@@ -233,7 +290,7 @@ Section Generic.
       apply IH in Hf; auto.
       + destruct Hf as (HI2 & Hp2 & Hn2 & Hk2). repeat split; auto. eapply incl_tran; eauto.
       + intros k d Hin. apply in_aset in Hin. destruct Hin as [[_ Hd]|Hin].
-        * subst d. apply S_G. apply G_default. exact HG1.
+        * subst d. apply S_G. apply G_descr. apply G_default. exact HG1.
         * eapply G_mono; [exact Hk1|]. eapply Hp; eauto.
       + destruct (f_req f).
         * rewrite <- app_assoc. simpl. exact Hnd.
@@ -281,6 +338,18 @@ Section Generic.
         * apply G_ntobj; [|apply str_nodup_true; exact Eg1].
           intros k d Hin. apply in_combine_r in Hin. rewrite Forall_forall in B. apply B. exact Hin.
         * unfold ntuple_sk. destruct ss as [|x r]; [apply G_arr; intros d Hd; discriminate|apply G_tuple; exact B].
+      + rewrite sf_leaf in Hs.
+        destruct (is_type_name tp && match fmt with Some f => str_mem f formats | None => true end) eqn:Eg; try discriminate.
+        apply andb_true_iff in Eg. destruct Eg as [Eg1 Eg2].
+        inversion Hs; subst. repeat split; auto using incl_refl.
+      + rewrite sf_enum in Hs. inversion Hs; subst. repeat split; auto using incl_refl.
+      + rewrite sf_typed in Hs.
+        destruct (str_nodup names && Nat.eqb (List.length names) (List.length ts)) eqn:Eg; try discriminate.
+        destruct (map_st (schema_fuel E cfg 0) ts [] st) as [[ss st1]| |] eqn:E1; try discriminate.
+        inversion Hs; subst. destruct (map_st_ok _ _ H _ _ _ _ E1 HI) as (A & B & C & D). repeat split; auto.
+        apply andb_true_iff in Eg. destruct Eg as [Eg1 Eg2].
+        apply G_obj; [|apply isort_nodup; apply req_keys_nodup; apply str_nodup_true; exact Eg1].
+        intros k d Hin. apply in_combine_r in Hin. rewrite Forall_forall in B. apply B. exact Hin.
     - intros t. induction t using ty_ind'; intros st s st' Hs HI;
         try (destruct (sf_scalar E cfg (S fuel) st) as (H1 & H2 & H3 & H4 & H5 & H6);
              first [rewrite H1 in Hs | rewrite H2 in Hs | rewrite H3 in Hs | rewrite H4 in Hs | rewrite H5 in Hs | rewrite H6 in Hs];
@@ -305,8 +374,8 @@ Section Generic.
         destruct (fields_fold (schema_fuel E cfg fuel) fs [] [] st) as [[[props req] st1]| |] eqn:Ef; try discriminate.
         apply (fields_ok _ IHf) in Ef; auto.
         * destruct Ef as (A & B & C & D).
-          assert (HSo: Sp (keys st1) (obj_sk c props req)) by (apply G_obj; auto).
-          assert (HGo: G (keys st1) (render (obj_sk c props req))) by (apply S_G; exact HSo).
+          assert (HSo: Sp (keys st1) (obj_sk (Some c) props req)) by (apply G_obj; auto).
+          assert (HGo: G (keys st1) (render (obj_sk (Some c) props req))) by (apply S_G; exact HSo).
           cbv zeta in Hs. destruct (c_all_refs cfg).
           -- inversion Hs; subst. repeat split.
              ++ apply inv_aset; auto.
@@ -324,6 +393,18 @@ Section Generic.
         * apply G_ntobj; [|apply str_nodup_true; exact Eg1].
           intros k d Hin. apply in_combine_r in Hin. rewrite Forall_forall in B. apply B. exact Hin.
         * unfold ntuple_sk. destruct ss as [|x r]; [apply G_arr; intros d Hd; discriminate|apply G_tuple; exact B].
+      + rewrite sf_leaf in Hs.
+        destruct (is_type_name tp && match fmt with Some f => str_mem f formats | None => true end) eqn:Eg; try discriminate.
+        apply andb_true_iff in Eg. destruct Eg as [Eg1 Eg2].
+        inversion Hs; subst. repeat split; auto using incl_refl.
+      + rewrite sf_enum in Hs. inversion Hs; subst. repeat split; auto using incl_refl.
+      + rewrite sf_typed in Hs.
+        destruct (str_nodup names && Nat.eqb (List.length names) (List.length ts)) eqn:Eg; try discriminate.
+        destruct (map_st (schema_fuel E cfg (S fuel)) ts [] st) as [[ss st1]| |] eqn:E1; try discriminate.
+        inversion Hs; subst. destruct (map_st_ok _ _ H _ _ _ _ E1 HI) as (A & B & C & D). repeat split; auto.
+        apply andb_true_iff in Eg. destruct Eg as [Eg1 Eg2].
+        apply G_obj; [|apply isort_nodup; apply req_keys_nodup; apply str_nodup_true; exact Eg1].
+        intros k d Hin. apply in_combine_r in Hin. rewrite Forall_forall in B. apply B. exact Hin.
   Qed.
 
   Theorem build_inv fuel wd uri t st d st' :
